@@ -42,6 +42,11 @@ pub struct Case {
     /// `SamplerBuilder::temperature`, when set (the sampler is then built through the builder in Oops mode too)
     #[serde(default)]
     pub temperature: Option<Fl>,
+    /// (seed, percent): one word of `width` symbols (from the seed, no wildcard) is written into every sequence at
+    /// a seed-derived place, each of its symbols replaced by another one with the given probability - a
+    /// conserved site, as in real data, so that windows reach scores of many bits per position
+    #[serde(default)]
+    pub planted: Option<(u64, u8)>,
 }
 
 pub struct Trace;
@@ -87,6 +92,19 @@ where
             let end = (start + len).min(s.len());
             for x in s[start..end].iter_mut() {
                 *x = (k - 1) as u8;
+            }
+        }
+    }
+    if let Some((seed, pct)) = case.planted {
+        let mut st = seed;
+        let word: Vec<u8> = (0..width).map(|_| { st = splitmix64(st); (st >> 20) as u8 % (k as u8 - 1) }).collect();
+        for s in seqs.iter_mut() {
+            st = splitmix64(st);
+            let at = (st >> 16) as usize % (s.len() - width + 1);
+            for j in 0..width {
+                st = splitmix64(st);
+                let keep = (st >> 24) % 100 >= pct as u64;
+                s[at + j] = if keep { word[j] } else { ((st >> 40) as u8) % (k as u8 - 1) };
             }
         }
     }
@@ -252,13 +270,13 @@ impl Sub for Trace {
         "trace"
     }
     fn rule(&self) -> &'static str {
-        "DNA / protein dataset of 2..12 sequences (lengths width+1..~120, occasional wildcards, and in a third of the datasets masked regions - wildcard runs of width..width+40 symbols - in some of the sequences; striped from text or, 1 in 4, built through StripedSequence::new with arbitrary symbols in the unused cells, as StripedSequence::sample leaves them) x width 1..20 x mode Oops or Zoops (seeds 2..n, inertia, patience) x SamplerBuilder::temperature unset or one of {0, 0.25, 0.5, 1, 2, 10} x StdRng seed x 1..300 steps x forced dispatcher arm; after construction and after EVERY step count_matrix, background, starts and Iteration.counts are recomputed from the reported alignment; the whole run is repeated and the two traces (z, counts, pssm bits, active set, starts) must be identical; non-trivial = >= 50 steps with a changed start (and an inclusion in Zoops)"
+        "DNA / protein dataset of 2..12 sequences (lengths width+1..~120, occasional wildcards, and in a third of the datasets masked regions - wildcard runs of width..width+40 symbols - in some of the sequences; striped from text or, 1 in 4, built through StripedSequence::new with arbitrary symbols in the unused cells, as StripedSequence::sample leaves them) x width 1..20 (one in seven 21..100) x a conserved site planted in every sequence (a third of the datasets; 0 / 3 / 10 / 25 % of its symbols changed per sequence) x mode Oops or Zoops (seeds 2..n, inertia, patience) x SamplerBuilder::temperature unset or one of {0, 0.25, 0.5, 1, 2, 10} x StdRng seed x 1..300 steps x forced dispatcher arm; after construction and after EVERY step count_matrix, background, starts and Iteration.counts are recomputed from the reported alignment; the whole run is repeated and the two traces (z, counts, pssm bits, active set, starts) must be identical; non-trivial = >= 50 steps with a changed start (and an inclusion in Zoops)"
     }
     fn cases(&self, tier: Tier) -> u64 {
         tier.pick(8_000, 200_000)
     }
     fn strategy(&self, _tier: Tier) -> BoxedStrategy<Case> {
-        (abc_strategy(), 1usize..=20, 2usize..=12)
+        (abc_strategy(), prop_oneof![6 => 1usize..=20, 1 => 21usize..=100], 2usize..=12)
             .prop_flat_map(|(abc, width, n)| {
                 let k = abc.k();
                 let seq = (width + 1..=width + 100).prop_flat_map(move |len| {
@@ -284,10 +302,11 @@ impl Sub for Trace {
                         prop_oneof![3 => Just(false), 1 => Just(true)],
                         prop_oneof![2 => Just(Vec::new()), 1 => proptest::collection::vec((0usize..n, any::<usize>(), width..=width + 40), 1..=n)],
                         prop_oneof![3 => Just(None), 2 => proptest::sample::select(vec![0.0f32, 0.25, 0.5, 1.0, 2.0, 10.0]).prop_map(|t| Some(Fl(t)))],
+                        prop_oneof![2 => Just(None), 1 => (any::<u64>(), prop_oneof![Just(0u8), Just(3u8), Just(10u8), Just(25u8)]).prop_map(Some)],
                     ),
                 )
             })
-            .prop_map(|(abc, width, seqs, extra_wrap, mode, rng_seed, steps, (arm, via_new, masked, temperature))| Case { abc, width, seqs, extra_wrap, mode, rng_seed, steps, arm, via_new, masked, temperature })
+            .prop_map(|(abc, width, seqs, extra_wrap, mode, rng_seed, steps, (arm, via_new, masked, temperature, planted))| Case { abc, width, seqs, extra_wrap, mode, rng_seed, steps, arm, via_new, masked, temperature, planted })
             .boxed()
     }
     fn check(&self, case: &Case, _cx: &Cx) -> Verdict {
@@ -302,6 +321,9 @@ impl Sub for Trace {
         info.class_if(case.via_new, "dataset-built-by-StripedSequence::new(arbitrary-padding)");
         info.class_if(!case.masked.is_empty(), "masked-regions(wildcard-runs>=width)");
         info.class_if(case.temperature.is_some(), "temperature-set-through-the-builder");
+        info.class_if(case.planted.is_some(), "conserved-site-planted-in-every-sequence");
+        info.class_if(case.width > 20, "width-21..100");
+        info.class_if(case.planted.is_some() && case.width >= 64, "conserved-site-of-64-or-more-positions");
         info.class_if(case.temperature.map_or(false, |t| t.0 == 0.0), "temperature=0");
         let r = with_abc!(case.abc, A => {
             match run::<A>(case, &mut info) {
